@@ -323,3 +323,68 @@ def with_fragment(u, fragment):
         raise TypeError("Invalid fragment type")
     raw = "" if fragment is None else spec_parse.FRAGMENT_QUOTER(fragment)
     return U(u.scheme, u.netloc, u.path, u.query, raw)
+
+
+# ---------------------------------------------------------------- constructors (C09, C19, C03)
+
+SCHEME_REQUIRES_HOST = ("http", "https", "ws", "wss", "ftp")
+
+
+def encode_host(host, validate_host):
+    """host canonicalisation (C16) -- specified separately; here it is the assumed contract of
+    yarl._url._encode_host, natively the real function"""
+    from yarl._url import _encode_host
+    return _encode_host.__wrapped__(host, validate_host)
+
+
+def encode_host_ensures(host, validate_host, result):
+    """what callers may rely on (C16/C03): the encoded host carries no authority delimiter
+    outside IP-literal brackets, brackets only enclose it, and it is empty only for an empty host"""
+    br = result[:1] == "["
+    return ((br and result[-1:] == "]" and not ("@" in result) and not ("/" in result) and not ("[" in result[1:])
+             and not ("]" in result[:-1]) and len(result) >= 2)
+            or (not br and not (":" in result) and not ("@" in result) and not ("[" in result) and not ("]" in result)
+                and (result != "" or host == "")))
+
+
+def normalize_path(path):
+    """dot-segment removal (C15) -- specified separately; assumed contract of yarl._path.normalize_path"""
+    from yarl._path import normalize_path as real
+    return real(path)
+
+
+def encode_url(url_str):
+    """the constructor in auto-encoding mode: parse (C07), canonicalise each component with its
+    requoter (C01-C04), canonical host (C16), dot segments removed under an authority (C15)"""
+    scheme, netloc, path, query, fragment = spec_parse.split_url(url_str)
+    if netloc:
+        if ":" in netloc or "@" in netloc or "[" in netloc:
+            user, password, host, p = spec_parse.split_netloc(netloc)
+        else:
+            user = None
+            password = None
+            host = netloc
+            p = None
+        if host is None:
+            if scheme in SCHEME_REQUIRES_HOST:
+                raise ValueError("Invalid URL: host is required for absolute urls with this scheme")
+            host = ""
+        host = encode_host(host, False)
+        raw_user = spec_parse.REQUOTER(user) if user else user
+        raw_password = spec_parse.REQUOTER(password) if password else password
+        netloc = spec_parse.make_netloc(raw_user, raw_password, host, p)
+    if path:
+        path = spec_parse.PATH_REQUOTER(path)
+        if netloc and "." in path:
+            path = normalize_path(path)
+    if query:
+        query = spec_parse.QUERY_REQUOTER(query)
+    if fragment:
+        fragment = spec_parse.FRAGMENT_REQUOTER(fragment)
+    return U(scheme, netloc, path, query, fragment)
+
+
+def pre_encoded_url(url_str):
+    """encoded=True: the parts are stored verbatim (C07)"""
+    scheme, netloc, path, query, fragment = spec_parse.split_url(url_str)
+    return U(scheme, netloc, path, query, fragment)
